@@ -31,7 +31,7 @@ def dev_unit(unit, keep=False, show=False, verbose=False, only_fail=True):
         for dg in res["diags"]:
             if dg.kind == "noise" or dg.level not in ("error",):
                 continue
-            reg = [i for i in infos if i.unproved_from_line and dg.lines and all(i.unproved_from_line <= l[0] <= i.unproved_to_line for l in dg.lines if l[3])]
+            reg = [i for i in infos if dg.lines and any(all(r[0] <= l[0] <= r[1] for l in dg.lines if l[3]) for r in i.unproved_regions)]
             if reg and dg.kind in ("refuted", "undecided"):
                 print("[in declared-unproved region of %s] %s" % (reg[0].name, dg.message.split("\n")[0]))
                 continue
